@@ -199,7 +199,15 @@ class NP:
 
     def loadtxt(self, fname, *a, **kw):
         if NP.LOADTXT is not None:
-            return NP.LOADTXT(fname)
+            arr = NP.LOADTXT(fname)
+            mr = kw.get('max_rows')
+            sk = kw.get('skiprows', 0) or 0
+            if (mr is not None or sk) and getattr(arr, 'ndim', 0) >= 1:
+                arr = arr[sk:(sk + mr) if mr is not None else None]        # numpy: rows are skipped / limited before parsing
+            uc = kw.get('usecols')
+            if uc is not None and getattr(arr, 'ndim', 0) == 2:
+                arr = arr[:, uc]
+            return arr
         return _np.loadtxt(fname, *a, **kw)
 
     exp = staticmethod(_elementwise('exp'))
